@@ -780,7 +780,8 @@ func resetPathNodeSlots(con []PathNode) {
 func guardPathNodeSlice(con *[]PathNode, l int) {
 	c := cap(*con)
 	if l >= c {
-		tmp := make([]PathNode, len(*con), l+DefaultNodeSliceCap)
+		// NOTICE: grow geometrically, a constant increment copies the children quadratically often
+		tmp := make([]PathNode, len(*con), l+l/2+DefaultNodeSliceCap)
 		copy(tmp, *con)
 		*con = tmp
 	}
